@@ -1917,39 +1917,12 @@ fn eval_in_list_in_list(list: &Value, items: &[Value]) -> Value {
   VALUE_FALSE
 }
 
-///
+/// Negation of [eval_in_list]: `true` when none of the items is satisfied.
 fn eval_in_negated_list(left: &Value, items: &[Value]) -> Value {
-  for item in items {
-    match item {
-      inner @ Value::Number(_) | inner @ Value::String(_) => {
-        if let Value::Boolean(true) = eval_in_equal(left, inner) {
-          return Value::Boolean(false);
-        }
-      }
-      Value::UnaryLess(inner) => {
-        if let Value::Boolean(true) = eval_in_unary_less(left, inner.borrow()) {
-          return Value::Boolean(false);
-        }
-      }
-      Value::UnaryLessOrEqual(inner) => {
-        if let Value::Boolean(true) = eval_in_unary_less_or_equal(left, inner.borrow()) {
-          return Value::Boolean(false);
-        }
-      }
-      Value::UnaryGreater(inner) => {
-        if let Value::Boolean(true) = eval_in_unary_greater(left, inner.borrow()) {
-          return Value::Boolean(false);
-        }
-      }
-      Value::UnaryGreaterOrEqual(inner) => {
-        if let Value::Boolean(true) = eval_in_unary_greater_or_equal(left, inner.borrow()) {
-          return Value::Boolean(false);
-        }
-      }
-      _ => return value_null!("eval_in_negated_list"),
-    }
+  match eval_in_list(left, items) {
+    Value::Boolean(satisfied) => Value::Boolean(!satisfied),
+    other => other,
   }
-  Value::Boolean(true)
 }
 
 ///
